@@ -42,6 +42,17 @@ def tagged_pids(run_id, exclude=()):
     return out
 
 
+def _digest(v):
+    """Long strings become 'str[N]:c' (c = the character they consist of, '?' if mixed)."""
+    if isinstance(v, str) and len(v) > 1000:
+        return 'str[%d]:%s' % (len(v), v[0] if v == v[0] * len(v) else '?')
+    if isinstance(v, list):
+        return [_digest(x) for x in v]
+    if isinstance(v, dict):
+        return {k: _digest(x) for k, x in v.items()}
+    return v
+
+
 class Script:
     def __init__(self, driver, case):
         self.d = driver
@@ -190,7 +201,10 @@ class Script:
             w = self.obj(op['var'])
             args = op.get('args', [])
             kwargs = op.get('kwargs', {})
-            return self.call(lambda: getattr(w, op['method'])(*args, **kwargs), op.get('timeout', 15))
+            res = self.call(lambda: getattr(w, op['method'])(*args, **kwargs), op.get('timeout', 15))
+            if op.get('digest') and 'ret' in res:
+                res['ret'] = _digest(res['ret'])
+            return res
         if o == 'get':
             w = self.obj(op['var'])
             if op.get('digest'):
@@ -241,6 +255,25 @@ class Script:
             w = self.obj(op['var'])
             out = []
             end = None
+            if op.get('iter'):
+                # the consumer is a for loop over results_iter(): an exception leaving the generator is the end it sees
+                def it():
+                    got = []
+                    try:
+                        for v in w.results_iter():
+                            got.append(v)
+                            if len(got) >= op.get('max', 20):
+                                break
+                    except BaseException as e:  # noqa
+                        return got, 'RAISES:' + type(e).__name__
+                    return got, 'empty'
+                r = with_timeout(it, op.get('timeout', 3) * 3)
+                if r == 'HANG':
+                    return {'ret': [], 'end': 'hang'}
+                if isinstance(r, str):
+                    return {'ret': [], 'end': r}
+                conv = (lambda x: _digest(_rep(x))) if op.get('digest') else _rep
+                return {'ret': [conv(x) for x in r[0]], 'end': r[1]}
             for _ in range(op.get('max', 20)):
                 r = with_timeout(lambda: w.next_result(), op.get('timeout', 3))
                 if r == 'RAISES:Empty':
@@ -252,7 +285,7 @@ class Script:
                 if isinstance(r, str) and r.startswith('RAISES:'):
                     end = r
                     break
-                out.append(_rep(r))
+                out.append(_digest(_rep(r)) if op.get('digest') else _rep(r))
             return {'ret': out, 'end': end}
         if o == 'stacks':
             import traceback
